@@ -164,7 +164,8 @@ def replay(scn, ui, python, cse=True, presentation=None, force_ekf=False):
     ghost = None
     if want_ekf and any(st["act"] == "Update" for st in scn["steps"]) and zlib.crc32(str(scn.get("_id", "")).encode()) % 3 == 0:
         ghost = build_py(d, ui, python, cse, True, presentation)[0]      # a second filter object built from the same definition
-    asym = bool(resolve_presentation(presentation, d).get("variety"))
+    # (only in behaviours without prediction steps: a model like u' = z0/dt, z0' = u amplifies the 2^-40 by 8 per step)
+    asym = bool(resolve_presentation(presentation, d).get("variety")) and not any(st["act"] == "Predict" for st in scn["steps"])
     lay = scn.get("layout")
     if lay:
         # the layouts the objects publish must be the specification's name order (SortNames)
